@@ -71,6 +71,10 @@ class Heap:
 PMODELS = {}
 
 
+class _Resume(Exception):
+    """raised by a model that has already positioned the state itself (nothing to store, no block to enter)"""
+
+
 def pmodel(*names):
     def deco(f):
         for n in names:
@@ -471,6 +475,42 @@ class PEval(Folder):
         st.frames[-1][2] = J
         st.frames[-1][3] = 0
 
+    def _guarded_iteration(self, st, t, item):
+        """`for x in iter.filter(symbolic predicate)`: the iterator has just been advanced past a guarded item.  The loop body is
+        run for it on a copy of the state until the loop head (the block holding this next() call) is entered again, and the
+        result is merged with the state in which the item was skipped, under the item's condition."""
+        _, (cj, ck, neg), x = item
+        fr = st.frames[-1]
+        depth = len(st.frames)
+        head = fr[2]
+        if t.get("target") is None:
+            raise _Abort("top", "guarded iteration without a continuation")
+        taken = st.clone()
+        hv = self.heap.version
+        self._store(taken, depth - 1, t["dest"], some(x))
+        self._enter_block(taken, t["target"])
+        while not (len(taken.frames) == depth and taken.frames[-1][2] == head and taken.frames[-1][3] == 0):
+            self.sym_steps += 1
+            if self.sym_steps > self.max_steps:
+                raise _Abort("top", "step budget exhausted in a conditionally executed loop body")
+            if len(taken.frames) < depth:
+                raise _Abort("top", "function returns from a conditionally executed loop body")
+            if self._step(taken) is not None:
+                raise _Abort("top", "evaluation ends in a conditionally executed loop body")
+        if self.heap.version != hv:
+            raise _Abort("top", "heap written under a symbolic condition")
+        a, b = (taken, st) if not neg else (st, taken)
+        cond = (cj, ck)
+        for i in range(depth):
+            la, lb = a.frames[i][1], b.frames[i][1]
+            merged = {}
+            for k in set(la) | set(lb):
+                u, v = la.get(k, TOP), lb.get(k, TOP)
+                merged[k] = u if u == v else merge_sel(cond, u, v)
+            st.frames[i][1] = merged
+        st.frames[-1][2] = head
+        st.frames[-1][3] = 0
+
     # ------------------------------------------------- symbolic payload bits
     # A payload byte vector may be given as ("symvec",): its bytes are ("sbyte", j).  The only operations the
     # placement code applies to them are `byte & (1 << k)` and `!= 0`, giving ("sbit", j, k, negated).  A module whose
@@ -752,6 +792,21 @@ class PEval(Folder):
         fidx = len(st.frames) - 1
         if t.get("target") is None:
             raise _Abort("diverge", "diverging call to %s at %s:%s" % (name, t.get("file"), t.get("line")))
+        if name and name.startswith("std::convert::num::<impl std::convert::From<") and not name.startswith("std::convert::num::<impl std::convert::From<bool>") \
+                and len(args) == 1 and args[0] != TOP and args[0][0] in ("int", "float"):
+            # lossless numeric widening: From<u8> for u32 / f64, From<f32> for f64, ...
+            dst = name.split(" for ", 1)[1].split(">")[0]
+            a = args[0]
+            from .fold import INT_BITS as _IB
+            v = None
+            if dst in ("f64", "f32"):
+                v = ("float", float(a[2] if a[0] == "int" else a[1]))
+            elif dst in _IB and a[0] == "int":
+                v = mk_int(dst, a[2])
+            if v is not None:
+                self._store(st, fidx, t["dest"], v)
+                self._enter_block(st, t["target"])
+                return
         if name and name.startswith("std::convert::num::<impl std::convert::From<bool> for ") and len(args) == 1 and args[0] != TOP:
             ty = name[len("std::convert::num::<impl std::convert::From<bool> for "):].split(">")[0]
             a = args[0]
@@ -783,6 +838,8 @@ class PEval(Folder):
         if name in PMODELS:
             try:
                 v = PMODELS[name](self, st, args, t)
+            except _Resume:
+                return
             except _Abort as ab:
                 if self.lenient and ab.kind == "top":
                     self._opaque_call(st, t, args)  # the model cannot say: treat the call as opaque
@@ -797,8 +854,7 @@ class PEval(Folder):
             self._enter_block(st, t["target"])
             return
         if name in ("<T as std::convert::Into<U>>::into", "std::convert::Into::into") and len(t.get("generics") or []) == 2:
-            sub = st.frames[-1][1].get("subst") or {}
-            src, dst = [sub.get(g, g) for g in t["generics"]]
+            src, dst = [self._bound_type(st, g) for g in t["generics"]]
             if src == dst:
                 self._store(st, fidx, t["dest"], args[0])
                 self._enter_block(st, t["target"])
@@ -832,16 +888,24 @@ class PEval(Folder):
             return
         raise _Abort("top", "call to %s is not modelled (at %s:%s)" % (name, t.get("file"), t.get("line")))
 
+    def _bound_type(self, st, name):
+        """the concrete type bound to a type-parameter name: the innermost frame that binds it (a closure body sees the
+        parameters of the function that created it, whose frame is still below it on the stack)"""
+        for fr in reversed(st.frames):
+            sub = fr[1].get("subst") if isinstance(fr[1], dict) else None
+            if sub and name in sub:
+                return sub[name]
+        return name
+
     def _subst_for(self, st, callee, t):
         """type parameters of a generic crate function bound by this call: parameter name -> the caller's argument type"""
         tyts = callee.raw.get("inputs_tyt") or []
         if not any(x.get("k") == "param" for x in tyts):
             return None
-        outer = st.frames[-1][1].get("subst") or {}
         sub = {}
         for x, a in zip(tyts, t["args"]):
             if x.get("k") == "param" and a.get("ty"):
-                sub[x["name"]] = outer.get(a["ty"], a["ty"])
+                sub[x["name"]] = self._bound_type(st, a["ty"])
         return sub
 
     def _memo_key(self, st, name, args):
@@ -1106,7 +1170,11 @@ def _filter(pe, st, args, t):
     out = []
     for x in it[1][it[2]:]:
         # the predicate receives a reference to the item
-        if _truth(pe.invoke_closure(st, args[1], [("ref", ("const", x))]), "filter"):
+        b = pe.invoke_closure(st, args[1], [("ref", ("const", x))])
+        if b != TOP and b[0] == "sbit":
+            # kept under a symbolic condition: a `for` loop over the result runs its body for this item under that condition
+            out.append(("gitem", (b[1], b[2], b[3]), x))
+        elif _truth(b, "filter"):
             out.append(x)
     return ("iter", tuple(out), 0)
 
@@ -1209,7 +1277,11 @@ def _next(pe, st, args, t):
         pe.store_ptr(st, r[1], ("iter", vals, pos) + extra)
         return NONE
     pe.store_ptr(st, r[1], ("iter", vals, pos + 1) + extra)
-    return some(vals[pos])
+    item = vals[pos]
+    if item != TOP and item[0] == "gitem":
+        pe._guarded_iteration(st, t, item)
+        raise _Resume()
+    return some(item)
 
 
 # --------------------------------------------------------------------------
@@ -1515,6 +1587,14 @@ def _iter_adapt(pe, st, args, t):
             raise _Abort("top", "%s(): inner value is not a known sequence" % nm)
         out += list(sub[1][sub[2]:])
     return ("iter", tuple(out), 0)
+
+
+@pmodel("std::ops::FnOnce::call_once", "std::ops::FnMut::call_mut", "std::ops::Fn::call")
+def _fn_call(pe, st, args, t):
+    clo, tup = args[0], args[1] if len(args) > 1 else ("tuple", ())
+    if tup == TOP or tup[0] != "tuple":
+        raise _Abort("top", "closure called with an unknown argument tuple")
+    return pe.invoke_closure(st, clo, list(tup[1]))
 
 
 @pmodel("std::iter::Iterator::for_each")
@@ -2864,12 +2944,65 @@ def _str_chars(pe, st, args, t):
     raise _Abort("top", "chars() of an unknown string")
 
 
+def _char_model(name, fn, nargs=1):
+    @pmodel("core::char::methods::<impl char>::%s" % name)
+    def f(pe, st, args, t):
+        xs = [_deref_all(pe, st, a) for a in args[:nargs]]
+        if xs[0] == TOP or xs[0][0] != "char":
+            raise _Abort("top", "char::%s of an unknown character" % name)
+        return fn(pe, st, *xs)
+    return f
+
+
+_char_model("len_utf8", lambda pe, st, c: mk_int("usize", len(chr(c[1]).encode())))
+_char_model("to_ascii_uppercase", lambda pe, st, c: ("char", ord(chr(c[1]).upper()) if c[1] < 128 else c[1]))
+_char_model("to_ascii_lowercase", lambda pe, st, c: ("char", ord(chr(c[1]).lower()) if c[1] < 128 else c[1]))
+_char_model("is_whitespace", lambda pe, st, c: mk_bool(chr(c[1]).isspace()))
+_char_model("is_ascii_whitespace", lambda pe, st, c: mk_bool(chr(c[1]) in " \t\n\x0c\r"))
+_char_model("is_ascii_hexdigit", lambda pe, st, c: mk_bool(chr(c[1]) in "0123456789abcdefABCDEF"))
+_char_model("is_ascii_punctuation", lambda pe, st, c: mk_bool(c[1] < 128 and chr(c[1]) in "!\"#$%&'()*+,-./:;<=>?@[\\]^_`{|}~"))
+_char_model("is_ascii_graphic", lambda pe, st, c: mk_bool(33 <= c[1] <= 126))
+_char_model("is_ascii_control", lambda pe, st, c: mk_bool(c[1] < 32 or c[1] == 127))
+
+
+def _char_to_digit(pe, st, c, radix):
+    if radix == TOP or radix[0] != "int":
+        raise _Abort("top", "to_digit with an unknown radix")
+    if not 2 <= radix[2] <= 36:
+        raise _Abort("diverge", "to_digit with radix %d" % radix[2])
+    d = "0123456789abcdefghijklmnopqrstuvwxyz".find(chr(c[1]).lower()) if c[1] < 128 else -1
+    return some(mk_int("u32", d)) if 0 <= d < radix[2] else NONE
+
+
+_char_model("to_digit", _char_to_digit, 2)
+
+
+@pmodel("core::str::<impl str>::to_lowercase", "core::str::<impl str>::to_uppercase", "core::str::<impl str>::to_ascii_lowercase",
+        "core::str::<impl str>::to_ascii_uppercase", "core::str::<impl str>::trim", "core::str::<impl str>::trim_start",
+        "core::str::<impl str>::trim_end", "alloc::str::<impl str>::to_lowercase", "alloc::str::<impl str>::to_uppercase")
+def _str_case(pe, st, args, t):
+    s_ = _pystr(pe, st, args[0])
+    nm = (t.get("callee") or "").rsplit("::", 1)[1]
+    if s_ is None:
+        raise _Abort("top", "%s() of an unknown string" % nm)
+    if nm.startswith("trim"):
+        r = {"trim": s_.strip(), "trim_start": s_.lstrip(), "trim_end": s_.rstrip()}[nm]
+        return ("ref", ("const", ("str", r)))
+    if "ascii" in nm:
+        r = "".join((c.lower() if "lower" in nm else c.upper()) if ord(c) < 128 else c for c in s_)
+    else:
+        if any(ord(c) >= 128 for c in s_):
+            raise _Abort("top", "%s() of non-ASCII text (Unicode case tables not modelled)" % nm)
+        r = s_.lower() if "lower" in nm else s_.upper()
+    return _mkstring(r)
+
+
 @pmodel("core::str::<impl str>::char_indices")
 def _str_char_indices(pe, st, args, t):
-    v = _deref_all(pe, st, args[0])
-    if v != TOP and v[0] == "str":
+    s_ = _pystr(pe, st, args[0])
+    if s_ is not None:
         out, off = [], 0
-        for c in v[1]:
+        for c in s_:
             out.append(("tuple", (mk_int("usize", off), ("char", ord(c)))))
             off += len(c.encode())
         return ("iter", tuple(out), 0)
@@ -2897,6 +3030,10 @@ def _str_as_bytes(pe, st, args, t):
 def _str_index(pe, st, args, t):
     v = _deref_all(pe, st, args[0])
     r = args[1]
+    if v != TOP and v[0] == "string":
+        s_ = _pystr(pe, st, v)
+        if s_ is not None:
+            v = ("str", s_)
     if v == TOP or v[0] != "str" or r == TOP or r[0] != "adt":
         raise _Abort("top", "slicing an unknown string")
     b = v[1].encode()
